@@ -86,6 +86,21 @@ def run_assign(case, workdir=None, keep=False):
                   do_rollup=case["rollup"], peps_algorithm=case.get("peps", "stub"))
         if not desc:
             kw["descs"] = [False] * len(dsets)
+        if case.get("sqlite"):
+            # results go into an existing SQLite database (outside the destination directory) instead of the text files
+            import sqlite3
+            db = wd / "results.db"
+            if db.exists():
+                db.unlink()
+            con = sqlite3.connect(db)
+            con.execute("CREATE TABLE CANDIDATE (CANDIDATE_ID TEXT NOT NULL, PSM_FDR REAL, SVM_SCORE REAL, "
+                        "POSTERIOR_ERROR_PROBABILITY REAL, PRIMARY KEY (CANDIDATE_ID));")
+            con.execute("CREATE TABLE PEPTIDE_VALIDATION (PEPTIDE_ID TEXT NOT NULL, FDR REAL, PEP REAL, SVM_SCORE REAL);")
+            con.executemany("INSERT INTO CANDIDATE (CANDIDATE_ID) VALUES(?);",
+                            [("r%d" % r["id"],) for coll in case["colls"] for r in coll["rows"]])
+            con.commit()
+            con.close()
+            kw["sqlite_path"] = db
         try:
             with mk.patched(CONFIDENCE_CHUNK_SIZE=case["chunk"], MERGE_SORT_CHUNK_SIZE=case.get("merge_chunk", 20000)):
                 mokapot.assign_confidence(**kw)
@@ -115,6 +130,19 @@ def run_assign(case, workdir=None, keep=False):
                            "decoys": case["decoys"], "nlev": 1 + len(extra),
                            "levels": ["peptides"] + [LEVEL_FILE[lv] for lv in extra],
                            "rows": input_rows(coll, extra, case["rollup"]), "files": files, "raised": raised, "missing": missing})
+        if case.get("sqlite") and traces:
+            import sqlite3
+            rows = []
+            try:
+                con = sqlite3.connect(wd / "results.db")
+                for tbl, q in (("CANDIDATE", "SELECT CANDIDATE_ID, PSM_FDR, SVM_SCORE FROM CANDIDATE WHERE PSM_FDR IS NOT NULL"),
+                               ("PEPTIDE_VALIDATION", "SELECT PEPTIDE_ID, FDR, SVM_SCORE FROM PEPTIDE_VALIDATION")):
+                    for a, b, c in con.execute(q).fetchall():
+                        rows.append([tbl, str(a), rat(float(b), max(1, len(case["colls"][0]["rows"]))), int(round(float(c) * 4))])
+                con.close()
+            except Exception as e:
+                rows.append(["error", "%s: %s" % (type(e).__name__, e), [0, 1, False], 0])
+            traces[0]["sqlite_rows"] = rows
         info = {"listing": listing, "out": str(out)}
         return traces, info
     finally:
